@@ -33,7 +33,7 @@ COQ_DEPS = ["Common/ListX.v", "Common/ObsHash.v", "Generated/Tables.v", "Model/R
 COQ_IMPORTS = "From Mesa Require Import Model.Rng."
 COQ_CASE_TYPE = "case"
 COQ_RUN = "run_case"
-TABLE_CONSTRUCTS = ["mte_choice_sorted", "global_rng_sites", "rng_sites", "model_init_code", "model_init_skeleton",
+TABLE_CONSTRUCTS = ["mte_choice_sorted", "global_rng_sites", "unordered_iteration_sites", "rng_sites", "model_init_code", "model_init_skeleton",
                     "reset_randomizer_code", "reset_rng_code", "agent_generator_props"]
 ENUM_ALWAYS = False
 REPO = os.environ.get("VERIF_REPO", "/repo")
@@ -542,6 +542,17 @@ def build_script_model(spec, shared=None):
             model.agents.sort("energy").select(at_most=3).shuffle_do("act")
         elif k == "populate":
             model.populate(op[1])
+        elif k == "relocate":
+            # every agent, in random order, moves to a random empty cell (nearly full grids: many draws, both strategies)
+            for a in model.agents.shuffle():
+                if cellspace and model.capacity == 1:
+                    if hasattr(model.grid, "_try_random"):
+                        model.grid._try_random = bool(op[1])
+                    if len(model.grid.empties):
+                        a.cell = model.grid.select_random_empty_cell()
+                elif kind == "single":
+                    if a.pos is not None and model.grid.exists_empty_cells():
+                        model.grid.move_to_empty(a)
         elif k == "remove":
             if len(model.agents):
                 a = model.random.choice(list(model.agents))
@@ -929,12 +940,19 @@ def run_job(job, detail_step=None, share=False):
     raise ValueError(k)
 
 
+_JUNK = []
+
+
 def worker_main():
     req = json.load(sys.stdin)
     out = []
     for item in req["items"]:
         try:
             # priors: in-process histories run before the measured job
+            if "priors" in item:    # allocate and keep / free many objects: later objects live at other addresses
+                _JUNK.append([object() for _ in range(3000 + 700 * len(_JUNK))])
+                _JUNK.append([[i] for i in range(2000)])
+                del _JUNK[-1][::2]
             for p in item.get("priors", []):
                 try:
                     run_job(p)
@@ -1012,7 +1030,7 @@ def _diff_snap0(a, b):
     for k in sorted(set(a) | set(b)):
         if k not in ("agents",) and a.get(k) != b.get(k):
             return f"{k}: {json.dumps(a.get(k), default=str)[:100]} vs {json.dumps(b.get(k), default=str)[:100]}"
-    return "snapshots equal (digest differs only in ordering of a mapping)"
+    return ("the two re-runs made for this report agree with each other at that step: the difference does not reproduce run by run - it depends on the allocation history / memory addresses of the process")
 
 
 def _prior_for(job, j):
@@ -2046,6 +2064,22 @@ def _script_spec(rng):
             "w": w, "h": h, "torus": rng.random() < 0.5, "capacity": cap, "n": n, "ops": ops}
 
 
+def _dense_spec(rng, kind=None):
+    """nearly full capacity-1 grids (orthogonal, hex) and a nearly full legacy SingleGrid: 90-97 % occupied with 2..4 empty
+    cells, every agent relocated to a random empty cell several times, under both select_random_empty_cell strategies"""
+    kind = kind or rng.choice(["moore", "vonneumann", "hex", "single"])
+    w, h = rng.randint(6, 7), rng.randint(6, 7)
+    ops = []
+    flag = rng.random() < 0.5
+    for _ in range(rng.randint(3, 4)):
+        ops.append(["relocate", flag])
+        flag = not flag
+        if rng.random() < 0.3:
+            ops.append(["rand_empty", True])
+    return {"form": rng.choice(["seed", "rng-int"]), "seed": rng.randrange(1000), "space": kind, "w": w, "h": h, "torus": rng.random() < 0.5,
+            "capacity": 1 if kind != "single" else None, "n": w * h - rng.randint(2, 4), "ops": ops, "dense": True}
+
+
 def gen_cases(rng, tier):
     thorough = tier == "thorough"
     cases = []
@@ -2063,9 +2097,11 @@ def gen_cases(rng, tier):
     nscripts = 64 if not thorough else 800
     per = 16 if not thorough else 40
     specs = [_script_spec(rng) for _ in range(nscripts)]
-    for s in range(0, nscripts, per):
+    dkinds = ["moore", "hex", "vonneumann", "single"]
+    for ci, s in enumerate(range(0, nscripts, per)):
+        dense = [_dense_spec(rng, dkinds[(2 * ci + j) % 4]) for j in range(2 if not thorough else 4)]
         cases.append({"kind": "env", "hashseeds": hashseeds if not thorough else hashseeds[:4], "priors": True,
-                      "jobs": [{"kind": "script", "spec": sp} for sp in specs[s:s + per]]})
+                      "jobs": [{"kind": "script", "spec": sp} for sp in specs[s:s + per] + dense]})
     # re-seeding
     cases.append({"kind": "env", "hashseeds": [0, 1], "priors": False,
                   "jobs": [{"kind": "reset", "form": f, "seed": rng.randrange(10**6), "n": 8}
